@@ -98,6 +98,7 @@ type pathCtx struct {
 	inconcl    []string // reasons (path continued, but verdict cannot be exhaustive)
 	viol       *violation
 	knownHits  []violation
+	knownMemID, knownMemPat string
 	reached    map[string]bool
 	asserted   map[string]bool
 	observes   []observed
